@@ -13,6 +13,7 @@ import (
 	"path/filepath"
 	"sort"
 	"strings"
+	"time"
 
 	"github.com/piotrnar/gocoin/lib/btc"
 
@@ -321,7 +322,7 @@ func (r *run) recoverImage(root, template string, log []simos.Effect, k int, tru
 			if ln == nil || sub.status[ln.Hash] == 1 {
 				continue
 			}
-			sub.now = r.now
+			sub.now = time.Now().Unix() // (not r.now: that is the instant the live run's last operation STARTED)
 			sub.deliver(bi, fmt.Sprintf("re-feeding block[%d] after crash recovery", bi))
 		}
 		if os.Getenv("VSIM_DEBUG") != "" {
